@@ -50,6 +50,7 @@
 #include <sys/stat.h>
 #include <dirent.h>
 #include <unistd.h>
+#include <sched.h>
 
 namespace vsess {
 
@@ -195,6 +196,7 @@ public:
 		// global logger: no file, nothing logged
 		GlobalLogger::set_global_filename("/dev/null");
 		GlobalLogger::set_levels(Logger::Levels());
+		GlobalLogger::stop();       // its thread polls every 200 us; nothing is loggable anyway
 		mkdir(_tmp_root.c_str(), 0700);
 	}
 	virtual ~SessHarness() { teardown(); rmtree(_tmp_root); }
@@ -387,10 +389,15 @@ protected:
 		if (!_conn || _p.pm != pm_thread)
 			return;
 		const int64_t t0(vclock_real_ns());
-		while (reader_started() && !_impl->idle())
+		for (unsigned spins(0); reader_started() && !_impl->idle(); ++spins)
 		{
-			vclock_real_sleep_us(20);
-			if (vclock_real_ns() - t0 > 15000000000LL) { _log.add("NOTQUIET"); break; }
+			if (spins < 4000)
+				sched_yield();
+			else
+			{
+				vclock_real_sleep_us(20);
+				if (vclock_real_ns() - t0 > 15000000000LL) { _log.add("NOTQUIET"); break; }
+			}
 		}
 	}
 
@@ -498,7 +505,9 @@ protected:
 };
 
 /// metadata dump: positions of the fields of the header, the trailer and every message, and the admin flag
-///   "P <part> <tag>:<pos>:<ftype> ..."   part = header | trailer | <msgtype>;   "A <msgtype> <0|1>"
+///   "V <BeginString>"; "P <part> <tag>:<pos as FieldTraits::getPos gives it>:<ftype>:<mandatory> ..." part = header | trailer | <msgtype>; "A <msgtype> <0|1>";
+///   "F <tag> <field name>";
+///   "E factory_empty <hex of what() thrown by Message::factory(ctx, \"\")>"
 static inline void dump_meta(std::ostream& os)
 {
 	const F8MetaCntx& c(UTEST::ctx());
@@ -507,7 +516,7 @@ static inline void dump_meta(std::ostream& os)
 	{
 		os << "P " << k;
 		for (auto f(fp.get_presence().begin()); f != fp.get_presence().end(); ++f)
-			os << ' ' << f->_fnum << ':' << f->_pos << ':' << static_cast<int>(f->_ftype);
+			os << ' ' << f->_fnum << ':' << (f->_field_traits.has(FieldTrait::position) ? f->_pos : 0) << ':' << static_cast<int>(f->_ftype) << ':' << (f->_field_traits.has(FieldTrait::mandatory) ? 1 : 0);
 		os << '\n';
 	};
 	bool hdr_done(false);
@@ -526,6 +535,11 @@ static inline void dump_meta(std::ostream& os)
 		os << "A " << k << ' ' << (m->is_admin() ? 1 : 0) << '\n';
 		traits(k, m->get_fp());
 	}
+	for (auto itr(c._be.begin()); itr != c._be.end(); ++itr)
+		os << "F " << itr->_key << ' ' << itr->_value._name << '\n';
+	// texts that carry __FILE__:__LINE__ of the tree under test: obtained from the real code
+	try { std::unique_ptr<Message> m(Message::factory(c, "")); os << "E factory_empty -\n"; }
+	catch (f8Exception& e) { os << "E factory_empty " << tohex(e.what()) << '\n'; }
 }
 
 } // namespace vsess
